@@ -3,10 +3,12 @@
 (* rule-generated changes are - in the years just after the recorded data, one and two 400-   *)
 (* year cycles later, and far out to the end of the representable range (every year of the    *)
 (* first cycle in the thorough tier) - so that the driver probes the real code exactly there.  *)
-EXTENDS Zone, Json, IOUtils, SequencesExt
+EXTENDS Zone, Json, IOUtils
 RealTMin == <<-1, 5808, 5477, 368, 3372, 922>>
 RealTMax == <<1, 5807, 5477, 368, 3372, 922>>
 RealBigBang == <<-1, 3488, 342, 7523, 6460, 57>>
+RECURSIVE S2Q(_)
+S2Q(S) == IF S = {} THEN <<>> ELSE LET x == CHOOSE x \in S : TRUE IN <<x>> \o S2Q(S \ {x})
 In == ndJsonDeserialize(IOEnv.ZONES)
 Thorough == IOEnv.PANEL = "thorough"
 YMax == UtcYear(TMax) \ominus W(6)
@@ -23,6 +25,6 @@ PanelOf(b) ==
   IF ~StructOk(D) THEN <<>>
   ELSE LET Z == MkZone(D) IN
        IF Z.rule.kind # "dst" THEN <<>>
-       ELSE SetToSeq({t \in UNION {{RuleCtx(Z, y).seq[i].at : i \in 1..Len(RuleCtx(Z, y).seq)} : y \in Centers(Z)} : TMin \prec t /\ t \prec TMax})
+       ELSE S2Q({t \in UNION {{RuleCtx(Z, y).seq[i].at : i \in 1..Len(RuleCtx(Z, y).seq)} : y \in Centers(Z)} : TMin \prec t /\ t \prec TMax})
 ASSUME ndJsonSerialize(IOEnv.OUT, [i \in 1..Len(In) |-> [name |-> In[i].name, t |-> PanelOf(In[i].bytes)]])
 =============================================================================
